@@ -96,3 +96,14 @@ Example C10_sample :
   kids s RDefs 0 = [1; 2] /\ fast_lookup s 0 KDefinition str_NAME [98%N] = Some 2 /\
   scan_lookup s (kids s RDefs 0) str_NAME [98%N] = Some 2.
 Proof. vm_compute. repeat split. Qed.
+
+(* legal form: after any history, an element that carries the EDIF policy stores only a legal
+   EDIF identifier (accepted edits are exactly those passing the legality test above) *)
+From SV Require Import Proofs.NsLegal.
+Theorem C10_stored_identifiers_legal : forall ops e v,
+  let s := run ops init in
+  elem_pol s e = Some PolEdif -> get_str s e str_IDENT = Some v -> legal_identifier v.
+Proof.
+  intros ops e v s Hp Hv. apply check_edif_identifier_spec. apply (reachable_legal ops e v Hp Hv).
+Qed.
+Print Assumptions C10_stored_identifiers_legal.
